@@ -287,6 +287,24 @@ func genGraph(r *cv.Rand, st *cv.Stats, n int) *graph {
 		}
 		g.structs = append(g.structs, s)
 	}
+	// chain: most structs also refer to the next one, so that the primary type reaches a good part of
+	// the graph (dependency collection and sorting are exercised on several names)
+	for i := 0; i+1 < len(g.structs); i++ {
+		if r.Intn(4) != 0 {
+			t := &mty{kind: "ref", ref: names[i+1]}
+			switch r.Intn(4) {
+			case 0:
+				t = &mty{kind: "arr", elem: t, fixed: -1}
+			case 1:
+				t = &mty{kind: "arr", elem: &mty{kind: "arr", elem: t, fixed: 1 + r.Intn(2)}, fixed: -1}
+			}
+			mn := fmt.Sprintf("link%d", i)
+			pos := r.Intn(len(g.structs[i].members) + 1)
+			ms := append([]member{}, g.structs[i].members[:pos]...)
+			ms = append(ms, member{mn, t})
+			g.structs[i].members = append(ms, g.structs[i].members[pos:]...)
+		}
+	}
 	st.Hit(fmt.Sprintf("structs:%d", n))
 	return g
 }
@@ -1151,18 +1169,8 @@ var structRe = regexp.MustCompile(`^struct (.*\.)?([^.\[\]]+)(\[\d*\])*$`)
 // ABI parameter JSON for a member type of an acyclic graph
 func abiParam(r *cv.Rand, g *graph, name string, t *mty, contract string) *jn {
 	p := jobj().set("name", jstr(name))
-	suffix := ""
-	b := t
-	for b.kind == "arr" {
-		if b.fixed < 0 {
-			suffix = "[]" + suffix
-		} else {
-			suffix = fmt.Sprintf("[%d]", b.fixed) + suffix
-		}
-		b = b.elem
-	}
-	// the suffixes are written outermost last
-	suffix = ""
+	b := t.base()
+	// the dimensions are written innermost first, outermost last
 	var dims []string
 	for x := t; x.kind == "arr"; x = x.elem {
 		if x.fixed < 0 {
@@ -1171,7 +1179,7 @@ func abiParam(r *cv.Rand, g *graph, name string, t *mty, contract string) *jn {
 			dims = append([]string{fmt.Sprintf("[%d]", x.fixed)}, dims...)
 		}
 	}
-	suffix = strings.Join(dims, "")
+	suffix := strings.Join(dims, "")
 	if b.kind == "ref" {
 		s := g.find(b.ref)
 		comps := jarr()
